@@ -86,6 +86,23 @@ def hop_cases():
                 for conn in ([], ["close"], ["keep-alive"]):
                     cases.append(mkcase(wk, [["sr", "101 Switching Protocols", hs, False], ["w", ""]], split=1, minor=minor, conn=conn))
                     cases.append(mkcase(wk, [["sr", "abc", hs, False], ["w", "x"]], split=1, minor=minor, conn=conn))
+    # an upgraded connection does not turn the other hop-by-hop fields into forwardable ones: each of them AFTER (and before)
+    # Connection: upgrade in the same list, with and without the websocket Upgrade field
+    others = [["Transfer-Encoding", "gzip, chunked"], ["Keep-Alive", "timeout=5"], ["Date", "Thu, 01 Jan 1970 00:00:00 GMT"],
+              ["Server", "upstream/1.0"], ["Proxy-Authenticate", "Basic realm=x"], ["TE", "trailers"], ["Trailers", "X-T"],
+              ["Proxy-Authorization", "x"], ["Upgrade", "h2c"]]
+    k = 0
+    for o in others:
+        for up in ([], [["Upgrade", "websocket"]]):
+            for first in (True, False):
+                hs = ([["Connection", "upgrade"]] + up + [o, ["X-App", "1"]]) if first else ([o] + up + [["Connection", "Upgrade"], ["X-App", "1"]])
+                wk = ["sync", "gthread", "async"][k % 3]
+                k += 1
+                cases.append(mkcase(wk, [["sr", "101 Switching Protocols", hs, False], ["w", ""]], split=1, minor=1, conn=[]))
+                cases.append(mkcase(wk, [["sr", "200 OK", hs, False], ["w", "hello"]], split=1, minor=1, conn=[] if k % 2 else ["keep-alive"]))
+    for wk in ("sync", "gthread", "async"):
+        hs = [["Connection", "upgrade"], ["Upgrade", "websocket"]] + others[:5] + [["X-App", "1"]]
+        cases.append(mkcase(wk, [["sr", "101 Switching Protocols", hs, False], ["w", ""]], split=1, minor=1, conn=[]))
     return cases
 
 
